@@ -188,8 +188,13 @@ def published_schema_docs(app):
     return [etree.tostring(d) for d in docs.values()]
 
 
-def published_wsdl(app, url='http://localhost/'):
-    from spyne.interface.wsdl import Wsdl11
-    w = Wsdl11(app.interface)
-    w.build_interface_document(url)
-    return w.get_interface_document()
+def published_wsdl(app, url='http://localhost/app'):
+    """WSDL bytes as a WSGI client would get them (GET ?wsdl on a fresh WsgiApplication)"""
+    from spyne.server.wsgi import WsgiApplication
+    w = WsgiApplication(app)
+    env = environ('GET', '/app', 'wsdl', b'', content_type=None, content_length=None)
+    env['HTTP_HOST'] = 'localhost'
+    o = call_wsgi(w, env)
+    if o.escaped is not None:
+        raise o.escaped
+    return o.out
